@@ -620,6 +620,17 @@ def generate(rng, tier):
             prev_failed_like = True
             continue
         if rng.random() < 0.04:
+            # a printer that catches a failure raised below a model and then goes on to a member that refers back to an
+            # enclosing container: the cycle marks of the containers in progress must have survived the failure
+            c1, c2 = rng.choice([0, 1, 2]), rng.choice([0, 1, 2])
+            inner = {"t": rng.choice(["mlist", "mexpr", "mtuple"]), "items": [{"t": "sym", "v": "q"},
+                     {"t": "box", "cls": c2, "kids": [], "plan": {"raise_at": 0}}]}
+            back = {"t": "ref", "up": rng.choice([1, 2])}
+            ops.append({"value": {"t": "list", "items": [{"t": "int", "v": 1},
+                        {"t": "box", "cls": c1, "kids": [inner, back, {"t": "sym", "v": "z"}], "plan": {"catch": True}}]}})
+            prev_failed_like = True
+            continue
+        if rng.random() < 0.04:
             # a value under many plain containers, well inside the recursion limit (depth thresholds, counters)
             ops.append({"value": {"t": "nest", "n": rng.choice([17, 32, 33, 64, 100, 127, 128, 129, 199, 200, 201, 250]),
                                   "leaf": rng.choice([{"t": "sym", "v": "a"}, {"t": "mlist", "items": [{"t": "sym", "v": "b"}, {"t": "int", "v": 1}]},
